@@ -118,7 +118,7 @@ def write_and_replay(pid, name, job, o, r):
            "cbmc_property_id": o.get("id"), "description": o.get("desc"),
            "source": {"file": o.get("file"), "function": o.get("function"), "line": o.get("line")},
            "found_by": "cbmc-trace" if o.get("trace") else "none",
-           "cbmc_cmd": r.get("cbmc_cmd"), "defs": job.defs, "cbmc_trace": (o.get("trace") or [])[-120:],
+           "cbmc_cmd": r.get("cbmc_cmd"), "defs": job.defs, "cbmc_trace": [t for t in (o.get("trace") or []) if (t.get("lhs") or "").startswith(("vc_wit", "nm["))] + (o.get("trace") or [])[-120:],
            "cbmc_output_tail": r.get("messages_tail", "")}
     found = False
     rec["native_replay"] = {"attempted": False}
